@@ -194,6 +194,10 @@ pub fn replay_full(rf: &RunFile) -> (Option<engine::Violation>, Option<Vec<u16>>
     if let Some(case) = &rf.build_case {
         return (block::check_build_case(case).map(|(kind, detail)| engine::Violation { property: "C18".into(), kind, detail, thread: 0, op: 0, step: 0 }), None);
     }
+    if rf.variant == "build:element-types" {
+        let (_, v) = crate::stub::element_type_build_cases();
+        return (v.map(|(label, detail)| engine::Violation { property: "C18".into(), kind: "build-invariant".into(), detail: format!("{label}: {detail}"), thread: 0, op: 0, step: 0 }), None);
+    }
     let Some(spec) = rf.spec.as_ref() else { return (None, None) };
     if rf.no_nest {
         crate::stub::NO_NEST.store(true, std::sync::atomic::Ordering::Relaxed);
@@ -202,7 +206,13 @@ pub fn replay_full(rf: &RunFile) -> (Option<engine::Violation>, Option<Vec<u16>>
     if rf.prefix_runs > 0 && prop == Prop::C17 {
         for run in 0..rf.prefix_runs.min(rf.run) {
             let seed = block::run_seed(rf.verif_seed, rf.block, run);
-            let g = if run % 16 == 5 { gen::gen_elem_sweep(seed) } else { gen::gen_run(seed, gen::Mode::C17) };
+            let g = if run % 16 == 5 {
+                gen::gen_elem_sweep(seed)
+            } else if run % 16 == 11 {
+                gen::gen_migration(seed)
+            } else {
+                gen::gen_run(seed, gen::Mode::C17)
+            };
             let _ = run_spec(&g.spec, Prop::C17, &RunOpts::default());
         }
     }
